@@ -100,6 +100,51 @@ def run(ctx, rep):
     for x, k in sorted(wmap.items()):
         if x in rmap:
             rep.check(rmap[x] == {k}, 'R-C10-2c', "tag '%s'" % x, wf.file, 'writer: state %d -> %s ; reader: %s -> state %s' % (k, x, x, sorted(rmap[x])), function='state_read_content', construct='state tag %s' % x)
+    # stripe-info flags: getter -> wire bit (writer), wire bit -> info_make position (reader), position -> internal bit (info_make),
+    # getter -> internal bit: the four maps must compose to the identity
+    from ..guards import guards_of
+    rep.rule('R-C10-2i', 'stripe-info flags (bad / rehash / just-synced) keep their meaning across save and load', 3)
+    getters = {}
+    for gname in ('info_get_bad', 'info_get_rehash', 'info_get_justsynced'):
+        gfn = P.fn(gname)
+        ks = [gfn.const_of(i.ops[1]) for i in gfn.all_insts() if i.op == 'and' and gfn.const_of(i.ops[1]) is not None]
+        getters[gname] = ks[0] if len(ks) == 1 else None
+    im = P.fn('info_make')
+    pos_bit = {}
+    for i in im.all_insts():
+        if i.op == 'or' and im.const_of(i.ops[1]) is not None:
+            for a, p_ in guards_of(im, i):
+                for k, arg in enumerate(im.args):
+                    if a == arg['name'] and p_:
+                        pos_bit[k] = im.const_of(i.ops[1])
+    wire_w = {}
+    for i in wf.all_insts():
+        if i.op == 'or' and wf.const_of(i.ops[1]) is not None and wf.expr(i.ops[0]) == 'flag':
+            for a, p_ in guards_of(wf, i):
+                for gname in getters:
+                    if a.startswith(gname + '(') and p_:
+                        wire_w[gname] = wf.const_of(i.ops[1])
+    wire_r = {}
+    for i in rf.all_insts():
+        if i.op == 'store':
+            dst = rf.expr(i.ops[1])
+            v = rf.expr(i.ops[0]).replace(' ', '')
+            m_ = __import__('re').match(r'^\(\(flag&(\d+)\)!=0\)$', v)
+            if m_ and dst.startswith('&'):
+                wire_r[dst[1:]] = int(m_.group(1))
+    mk = [c for c in rf.calls('info_make')]
+    reader_pos = {}
+    if len(mk) == 1:
+        for k, o in enumerate(mk[0].ops):
+            e = rf.expr(o)
+            if e in wire_r:
+                reader_pos[wire_r[e]] = k
+    for gname in sorted(getters):
+        wb = wire_w.get(gname)
+        pos = reader_pos.get(wb)
+        ib = pos_bit.get(pos)
+        ok = getters[gname] is not None and wb is not None and pos is not None and ib == getters[gname]
+        rep.check(ok, 'R-C10-2i', '%s: internal bit %s -> wire bit %s -> info_make arg %s -> internal bit %s' % (gname, getters[gname], wb, pos, ib), wf.file, '', function='state_read_content', construct='info flag %s' % gname)
     for t in pruned:
         rep.notes.append('writer switch at %s treated as exhaustive (link kind invariant checked)' % t.loc())
     # primitives
